@@ -4,52 +4,124 @@ proof: coq/Props/C06.v over coq/Client/Negotiate.v; tie: EXHAUSTIVE sessions of 
 extracted model (oracle/c06) under today's configuration and under the conforming one, and the
 property clauses evaluated directly on what the scripted reader saw."""
 import json
+import os
+import re
 import vlib
 
 PID = "C06"
-LATER = "Q2: Q1:00 A"           # what the harness sends after negotiation (GET_READER_CONFIG,
-                                # GET_READER_CAPABILITIES [00], ack of one KEEPALIVE)
+LATER_Q = "Q2: A Q1:00"         # after negotiation: GET_READER_CONFIG, ack of a KEEPALIVE, GET_READER_CAPABILITIES [00]
+LATER_A = "A Q2: A Q1:00"       # option LA: the first frame after negotiation is an ack
 VER_UNSUPPORTED = 110
 TIMEOUT_MS = 400                # client timeout used only in sessions with a silent reader
 WITNESS = "witness 2 R:64:64:0 N T%d" % TIMEOUT_MS   # the session of later_frames_negotiated_refuted
+# C06_example_keepalive_inside: 1.0.1-only reader, keep-alive while the query is unanswered, ack first
+DOWNGRADE_KA = "downgrade-ka 2 R:32:32:0 N T%d K1 LA" % TIMEOUT_MS
+
+
+NEVER_REPLY = set()     # message types this tree never delivers as a reply (probed in run())
+
+
+def eff(r):
+    """the reaction as the client experiences it: a 'wrong type' reply of a reader-initiated type
+    (KeepAlive, ROAccessReport, ReaderEventNotification) is, on a tree that never treats those as
+    replies, no reply at all"""
+    if r.startswith("W:") and int(r[2:]) in NEVER_REPLY:
+        return "N"
+    return r
+
+
+def library_statuses():
+    """every StatusCode constant the library defines, read from the source that is being checked"""
+    try:
+        src = open(os.path.join(vlib.REPO, "pkg", "llrp", "generated_structs.go")).read()
+        return sorted(set(int(x) for x in re.findall(r"=\s*StatusCode\((\d+)\)", src)))
+    except OSError:
+        return []
+
+
+def status_sweep(tier):
+    if tier == "thorough":
+        return list(range(65536)), "all 65536"
+    lib = library_statuses()
+    edge = [0, 1, 99, 100, 108, 109, 110, 111, 112, 113, 199, 200, 209, 210, 255, 256, 299, 300, 301, 302,
+            366, 400, 401, 402, 32767, 32768, 65534, 65535]
+    return sorted(set(lib) | set(edge)), "%d library StatusCode constants + neighbours of 110 + boundary values" % len(lib)
 
 
 def sessions(tier):
-    """the finite space: cmax x r1 x r2.  Returns (main lines, oversize-first-reply lines)."""
-    st = [0, VER_UNSUPPORTED, 100] + ([401, 65535] if tier == "thorough" else [])
+    """The finite space, as the union of four completely enumerated grids.
+    Returns (main lines, oversize-first-reply lines, description of the status sweep)."""
+    thorough = tier == "thorough"
+    st = [0, VER_UNSUPPORTED, 100] + ([401, 65535] if thorough else [])
+    resp_ok = ["R:%d:%d:0" % (c << 5, m << 5) for c in range(8) for m in range(8)]
     r1 = ["R:%d:%d:%d" % (c << 5, m << 5, s) for c in range(8) for m in range(8) for s in st]
     r1 += ["E:%d" % s for s in st] + ["W:57", "W:12", "W:1023", "O", "G1", "G2", "G3", "N"]
     r2 = ["R:0:0:%d" % s for s in st] + ["E:%d" % s for s in st]
     r2 += ["W:56", "W:12", "W:1023", "O", "G1", "G2", "G3", "N"]
-    if tier == "thorough":
-        r1 += ["W:%d" % t for t in (1, 11, 47, 63, 72, 101, 899)]
-        r2 += ["W:%d" % t for t in (1, 11, 46, 63, 72, 101, 899)]
-    main, over = [WITNESS], []
-    n = 0
+    if thorough:
+        r1 += ["W:%d" % t for t in (1, 11, 47, 61, 63, 72, 101, 899)]
+        r2 += ["W:%d" % t for t in (1, 11, 46, 61, 63, 72, 101, 899)]
+    seen, main, over = set(), [], []
+
+    def add(cmax, a, b, opts=()):
+        key = (cmax, a, b, tuple(opts))
+        if key in seen:
+            return
+        seen.add(key)
+        line = "s%d %d %s %s" % (len(seen), cmax, a, b)
+        if eff(a) == "N" or eff(b) == "N":
+            line += " T%d" % TIMEOUT_MS
+        if opts:
+            line += " " + " ".join(opts)
+        (over if (a == "O" and cmax == 2) else main).append(line)
+
+    # grid 1 — reactions: client max x reaction to the query x reaction to the switch
     for cmax in (1, 2):
         for a in r1:
             for b in r2:
-                n += 1
-                line = "s%d %d %s %s" % (n, cmax, a, b)
-                if a == "N" or b == "N":
-                    line += " T%d" % TIMEOUT_MS
-                (over if (a == "O" and cmax == 2) else main).append(line)
-    # version bytes whose low five bits are not zero (the decoder must ignore them)
-    low = [(c, m) for c in range(8) for m in range(8)]
-    if tier == "thorough":
+                add(cmax, a, b)
+    # grid 2 — status codes, one session each, in the four places a status can stand
+    sweep, sweep_desc = status_sweep(tier)
+    for code in sweep:
+        add(2, "E:%d" % code, "R:0:0:0")              # ERROR_MESSAGE to the query
+        add(2, "R:32:64:%d" % code, "R:0:0:0")        # status of GET_SUPPORTED_VERSION_RESPONSE
+        add(2, "R:32:64:0", "R:0:0:%d" % code)        # status of SET_PROTOCOL_VERSION_RESPONSE
+        add(2, "R:32:64:0", "E:%d" % code)            # ERROR_MESSAGE to the switch
+    # grid 3 — interleavings: keep-alives while the query / the switch is unanswered, and the
+    # order of the traffic after negotiation (ack first or request first)
+    if thorough:
+        i1, i2 = r1, r2
+    else:
+        i1 = resp_ok + ["E:%d" % VER_UNSUPPORTED, "E:0", "E:100", "W:57", "G1"]
+        i2 = ["R:0:0:0", "R:0:0:%d" % VER_UNSUPPORTED, "E:%d" % VER_UNSUPPORTED, "W:56"]
+    optsets = [k + o for k in ([], ["K1"], ["K2"], ["K1", "K2"]) for o in ([], ["LA"])][1:]
+    for a in i1:
+        for b in i2:
+            for o in optsets:
+                add(2, a, b, o)
+    if not thorough:
+        # silence costs a client timeout per session: in quick only at three representative places
+        for a, b in (("N", "R:0:0:0"), ("R:32:64:0", "N"), ("R:64:32:0", "N")):
+            for o in optsets:
+                add(2, a, b, o)
+    for a in (r1 if thorough else ["R:64:64:0", "E:%d" % VER_UNSUPPORTED, "N"]):
+        add(1, a, "R:0:0:0", ["LA"])
+    # grid 4 — version bytes whose low five bits are not zero (the decoder must ignore them)
+    if thorough:
         extra = [(cb, mb) for cb in range(256) for mb in range(256) if (cb & 31) or (mb & 31)]
     else:
-        extra = [((c << 5) | 31, (m << 5) | (1 + (c * 8 + m) % 31)) for c, m in low]
+        extra = [((c << 5) | 31, (m << 5) | (1 + (c * 8 + m) % 31)) for c in range(8) for m in range(8)]
     for cb, mb in extra:
-        n += 1
-        main.append("s%d 2 R:%d:%d:0 R:0:0:0" % (n, cb, mb))
-    return main, over
+        add(2, "R:%d:%d:0" % (cb, mb), "R:0:0:0")
+    return [WITNESS] + [DOWNGRADE_KA] + main, over, sweep_desc
 
 
 def model_request(line, prestamp, override):
     f = line.split()
-    g = lambda r: "G" if r.startswith("G") else r
-    return "%d %d %s %s %s %s" % (prestamp, override, f[1], g(f[2]), g(f[3]), LATER)
+    g = lambda r: "G" if r.startswith("G") else eff(r)
+    opts = f[4:]
+    return "%d %d %s %d %d %s %s %s" % (prestamp, override, f[1], "K1" in opts, "K2" in opts, g(f[2]), g(f[3]),
+                                        LATER_A if "LA" in opts else LATER_Q)
 
 
 def frames(s):
@@ -111,7 +183,7 @@ def demanded(cmax, r1, r2):
     return dict(neg=True, sets=1, outcome=None, version=chosen, why="undecodable/no reply to the switch (not judged)")
 
 
-def judge(cmax, r1, r2, ob):
+def judge(cmax, r1, r2, ob, opts=()):
     """property clauses evaluated on the observation; returns [(signature, text)]"""
     d = demanded(cmax, r1, r2)
     v = []
@@ -127,9 +199,6 @@ def judge(cmax, r1, r2, ob):
         bad = [f for f in negf if f[0] != 2]
         if bad:
             v.append(("negotiation-header-not-1.1", "negotiation frame(s) %s do not carry version 1.1" % bad))
-        other = [f for f in before if f[1] not in (46, 47)]
-        if other:
-            v.append(("frames-before-negotiation-ends", "frames %s were written before negotiation ended" % other))
         nset = len([f for f in negf if f[1] == 47])
         if d["sets"] is not None and nset != d["sets"]:
             if d["sets"] == 0:
@@ -157,8 +226,9 @@ def judge(cmax, r1, r2, ob):
         if [f for f in ack if f[0] != want]:
             v.append(("ack-frames-not-negotiated-version",
                       "after settling on version %d the keep-alive ack carries version bits %s" % (want, [f[0] for f in ack])))
-        if len(req) != 2 or len(ack) != 1:
-            v.append(("later-traffic-missing", "expected two requests and one ack after negotiation, saw %s" % after))
+        nack = 2 if "LA" in opts else 1
+        if len(req) != 2 or len(ack) != nack:
+            v.append(("later-traffic-missing", "expected two requests and %d ack(s) after negotiation, saw %s" % (nack, after)))
     return v
 
 
@@ -184,12 +254,20 @@ def same(ob, mo, r1):
     return out != "proceeds" or ob["cver"] == mo["ver"]
 
 
+def observe(line, g):
+    """(cmax, effective r1, effective r2, opts, observation) of one answered session"""
+    f = line.split()
+    return int(f[1]), eff(f[2]), eff(f[3]), f[4:], project_go(g, f[2])
+
+
 def run(tier, seed, replay=None):
+    global NEVER_REPLY
     res = vlib.Result(PID, tier, seed)
     res.assumptions = vlib.TRUSTED_COMMON + [
         "the scripted reader (harness/llrp/c06_test.go, own frame code) and net.Pipe deliver bytes faithfully; 'frames before/after the outcome' relies on net.Pipe writes completing only when read",
-        "reader reactions are the finite set enumerated here (version bytes v<<5 for v in 0..7 + low-bit variants, three status codes, three wrong types, one oversize size, three undecodable payloads, silence); the theorems quantify over all of them symbolically",
-        "an ERROR_MESSAGE carrying status Success, undecodable and missing replies are compared with the model only (the property text does not name them)",
+        "reader reactions are the finite set enumerated here (version bytes v<<5 for v in 0..7 + low-bit variants, the swept status codes, the listed wrong types, one oversize size, three undecodable payloads, silence; at most one KEEPALIVE at each of the two points inside negotiation); the theorems quantify over all reactions and any number of keep-alives symbolically",
+        "an ERROR_MESSAGE carrying status Success, undecodable and missing replies, and the version of acknowledgements written DURING negotiation are compared with the model only (the property text does not name them)",
+        "a 'wrong type' reply of a type the tree never delivers as a reply (probed: KeepAlive/ROAccessReport/ReaderEventNotification after fix 6decaf2) is the no-reply reaction",
         "the oversize reply to GET_SUPPORTED_VERSION is property C10's (defect F4); a crash there is noted, not judged here",
         "SetProtocolVersion payload format (raw version number) is recorded, not judged (DESIGN §7)",
     ]
@@ -203,17 +281,25 @@ def run(tier, seed, replay=None):
         res.violation("harness-build", "Go harness does not build against the repository: " + log[-1500:], dict(kind="build"), False)
         return res.finish()
 
+    # differential probe of the tree: what newMessage pre-stamps; which types are never replies
+    rc, pl, plog = vlib.run_harness(exe, "TestVerifC06", "probe\n", timeout=120, tag="_probe")
+    probe = pl[0] if pl and pl[0].startswith("probe") else ""
+    m = re.search(r"neverreply=([\d,]*) control=(\w+)", probe)
+    if rc != 0 or not m or m.group(2) != "true":
+        res.violation("harness-run", "probe failed (rc=%s): %r %s" % (rc, probe, plog[-800:]), dict(kind="harness"), False)
+        return res.finish()
+    NEVER_REPLY = set(int(x) for x in m.group(1).split(",") if x)
+
+    sweep_desc = "replay"
     if replay:
         rp = json.load(open(replay))
         main = list(rp.get("cases", [])) or [WITNESS]
         over = [l for l in main if l.split()[2] == "O" and l.split()[1] == "2"]
         main = [l for l in main if l not in over]
     else:
-        main, over = sessions(tier)
+        main, over, sweep_desc = sessions(tier)
 
-    rc, go_main, glog = vlib.run_harness(exe, "TestVerifC06", "probe\n" + "\n".join(main) + "\n", timeout=900)
-    probe = go_main[0] if go_main and go_main[0].startswith("probe") else ""
-    go_main = go_main[1:] if probe else go_main
+    rc, go_main, glog = vlib.run_harness(exe, "TestVerifC06", "\n".join(main) + "\n", timeout=1800)
     if rc != 0 or len(go_main) != len(main):
         res.violation("harness-run", "Go harness failed (rc=%s, %d/%d answers): %s" % (rc, len(go_main), len(main), glog[-1500:]),
                       dict(kind="harness", log=glog[-3000:]), False)
@@ -221,7 +307,7 @@ def run(tier, seed, replay=None):
     cases = list(zip(main, go_main))
     crashed = False
     if over:
-        # separate process: today this reaction makes Connect dereference a nil reader (F4, C10)
+        # separate process: before fix c7333db this reaction made Connect dereference a nil reader (F4, C10)
         rc2, go_over, olog = vlib.run_harness(exe, "TestVerifC06", "\n".join(over) + "\n", timeout=300, tag="_oversize")
         if rc2 != 0 or len(go_over) != len(over):
             crashed = True
@@ -233,16 +319,16 @@ def run(tier, seed, replay=None):
             res.notes.append("oversize reply to GetSupportedVersion crashes the client (panic in Connect; see C10/F4); not judged by C06")
 
     # confirmation pass: a session whose observation breaks a clause or matches no model
-    # configuration is run a second time on its own (the sessions with a silent reader depend on a
-    # client timeout, and the first pass runs eight sessions at a time); the second observation
-    # is the one that is judged
+    # configuration is run a second time, few at a time (the sessions with a silent reader depend
+    # on a client timeout, and the first pass runs sixteen sessions at a time); the second
+    # observation is the one that is judged
     o_conf1 = vlib.run_oracle("c06", "\n".join(model_request(c[0], 0, 0) for c in cases) + "\n")[1].split("\n")
     suspicious = []
     for i, (line, g) in enumerate(cases):
-        f = line.split()
-        ob, mo = project_go(g, f[2]), project_model(o_conf1[i]) if i < len(o_conf1) else None
-        if ob is None or mo is None or judge(int(f[1]), f[2], f[3], ob) or not same(ob, mo, f[2]):
-            if not (f[2] == "O" and f[1] == "2"):
+        cmax, r1, r2, opts, ob = observe(line, g)
+        mo = project_model(o_conf1[i]) if i < len(o_conf1) else None
+        if ob is None or mo is None or judge(cmax, r1, r2, ob, opts) or not same(ob, mo, r1):
+            if not (r1 == "O" and cmax == 2):
                 suspicious.append(i)
     reruns = 0
     for k in range(0, min(len(suspicious), 1200), 100):
@@ -264,26 +350,29 @@ def run(tier, seed, replay=None):
     n_today = n_conf = n_neither = 0
     spv_payloads = {}
     for (line, g), mt, mc in zip(cases, o_today, o_conf):
+        cmax, r1, r2, opts, ob = observe(line, g)
         f = line.split()
-        cmax, r1, r2 = int(f[1]), f[2], f[3]
-        key = "cmax=%d r1=%s r2=%s" % (cmax, kind(r1), kind(r2))
+        shape = [o for o in opts if not o.startswith("T")]
+        key = "cmax=%d r1=%s r2=%s %s" % (cmax, kind(r1), kind(r2), "+".join(shape) or "plain")
         dist[key] = dist.get(key, 0) + 1
-        ob = project_go(g, r1)
         mo_t, mo_c = project_model(mt), project_model(mc)
         replay_d = dict(kind="session", correspondence="C06/negotiate-vs-Connect", cases=[line], observed=g,
                         model_today=mt, model_conforming=mc, demanded=demanded(cmax, r1, r2),
-                        how="request line of harness/llrp/c06_test.go: <sid> <client max> <reaction to GET_SUPPORTED_VERSION> <reaction to SET_PROTOCOL_VERSION>; observed: <outcome> <Client.version> <frames before outcome> <frames after> (version:type:payload)")
+                        how="request line of harness/llrp/c06_test.go: <sid> <client max> <reaction to GET_SUPPORTED_VERSION> <reaction to SET_PROTOCOL_VERSION> "
+                            "[T<ms> client timeout] [K1|K2: KEEPALIVE while the query|switch is unanswered] [LA: after negotiation ack first]; "
+                            "observed: <outcome> <Client.version> <frames before outcome> <frames after> (version:type:payload)")
         if ob is None or mo_t is None or mo_c is None:
             res.violation("harness-answer", "unreadable answer for %s: go=%r model=%r" % (line, g, mt), replay_d, False)
             continue
         if cmax > 1:
-            nontriv.add((cmax, r1, r2))
+            nontriv.add((cmax, f[2], f[3], tuple(shape)))
         for fr in ob["before"]:
             if fr[1] == 47:
                 spv_payloads[fr[2]] = spv_payloads.get(fr[2], 0) + 1
-        viol = judge(cmax, r1, r2, ob)
+        viol = judge(cmax, r1, r2, ob, opts)
         for sig, what in viol:
-            res.violation(sig, "%s  [session: client max %d, reader answers %s then %s; observed %s]" % (what, cmax, r1, r2, g), replay_d)
+            res.violation(sig, "%s  [session: client max %d, reader answers %s then %s%s; observed %s]" % (
+                what, cmax, f[2], f[3], (", options " + " ".join(shape)) if shape else "", g), replay_d)
         a, b = same(ob, mo_t, r1), same(ob, mo_c, r1)
         n_today += a
         n_conf += b
@@ -291,14 +380,17 @@ def run(tier, seed, replay=None):
             n_neither += 1
             if not viol:
                 differ.append(dict(request=line, go=g, model_today=mt, model_conforming=mc))
+        plain = not shape
         want = [("witness", f[0] == "witness"),
-                ("switch-accepted", cmax == 2 and len(ob["before"]) == 2 and ob["outcome"] == "proceeds"),
-                ("switch-refused", cmax == 2 and len(ob["before"]) == 2 and r2.startswith("R:") and ob["outcome"] == "fails"),
-                ("query-unsupported", cmax == 2 and r1 == "E:%d" % VER_UNSUPPORTED),
-                ("query-other-error", cmax == 2 and r1 == "E:100"),
-                ("wrong-type", cmax == 2 and kind(r1) == "W"),
+                ("downgrade-keepalive-inside-ack-first", f[0] == "downgrade-ka"),
+                ("switch-accepted", plain and cmax == 2 and len(ob["before"]) == 2 and ob["outcome"] == "proceeds"),
+                ("switch-refused", plain and cmax == 2 and len(ob["before"]) == 2 and r2.startswith("R:") and ob["outcome"] == "fails"),
+                ("query-unsupported", plain and cmax == 2 and r1 == "E:%d" % VER_UNSUPPORTED),
+                ("query-error-109", cmax == 2 and r1 == "E:109"),
+                ("wrong-type", plain and cmax == 2 and kind(r1) == "W"),
                 ("limited-to-1.0.1", cmax == 1 and kind(r1) == "R"),
-                ("reader-goes-down", cmax == 2 and r1 == "R:64:32:0" and r2 == "R:0:0:0")]
+                ("keepalives-at-both-points", shape == ["K1", "K2"] and len(ob["before"]) == 4),
+                ("reader-goes-down-ack-first", cmax == 2 and r1 == "R:64:32:0" and r2 == "R:0:0:0" and shape == ["LA"])]
         for name, cond in want:
             if cond and name not in sampled:
                 sampled.add(name)
@@ -317,14 +409,21 @@ def run(tier, seed, replay=None):
     which = "conforming (later_frames_negotiated applies)" if n_conf == n else \
             "cfg_today (later_frames_negotiated_refuted applies)" if n_today == n else "mixed"
     res.notes.append("Go corresponds to model configuration: %s (today %d/%d, conforming %d/%d, neither %d)" % (which, n_today, n, n_conf, n, n_neither))
+    res.notes.append("types never delivered as replies by this tree (probed): %s" % sorted(NEVER_REPLY))
     res.coverage.update(
         evaluations=n, distinct_nontrivial=len(nontriv),
-        rule="sessions = client max {1.0.1, 1.1} x reaction to GET_SUPPORTED_VERSION x reaction to SET_PROTOCOL_VERSION, enumerated completely "
-             "(reactions: response with current,max in 0..7 and status in {0,110,100}; ERROR_MESSAGE with those statuses; three wrong types; oversize; "
-             "three undecodable payloads; silence) + version bytes with low bits set; each session = Connect on net.Pipe, then two SendMessage requests "
-             "and one KEEPALIVE; non-trivial iff client max is 1.1 (negotiation takes place); distinct by (client max, reaction 1, reaction 2)",
+        rule="the union of four completely enumerated grids. (1) reactions: client max {1.0.1, 1.1} x reaction to GET_SUPPORTED_VERSION "
+             "(response with current,max in 0..7 and status in {0,110,100}; ERROR_MESSAGE with those statuses; wrong types; oversize; three undecodable "
+             "payloads; silence) x reaction to SET_PROTOCOL_VERSION (same kinds). (2) status codes (%s), one session each in the four places a status "
+             "can stand: ERROR_MESSAGE to the query, status of the query's response, status of the switch's response, ERROR_MESSAGE to the switch. "
+             "(3) interleavings, client max 1.1: {64 successful responses, E:110, E:0, E:100, wrong type, undecodable} x {switch accepted, "
+             "refused, E:110, wrong type} + silence at the query / at the switch for two readers (thorough: all reactions of grid 1) x KEEPALIVE while the query is unanswered {no,yes} x KEEPALIVE "
+             "while the switch is unanswered {no,yes} x order after negotiation {request-ack-request, ack-request-ack-request}. (4) version bytes with "
+             "non-zero low bits (thorough: all 65472). Each session = Connect on net.Pipe, then two SendMessage requests and one or two KEEPALIVEs "
+             "in the stated order, every frame's version bits recorded; non-trivial iff client max is 1.1 (negotiation takes place); distinct by "
+             "(client max, reaction 1, reaction 2, keep-alive points, order)" % sweep_desc,
         samples=samples, input_distribution=dist, traces_validated_against_impl=n, exhaustive=not replay,
-        trusted_base=res.assumptions, model_configuration_matched=which, newMessage_probe=probe,
+        trusted_base=res.assumptions, model_configuration_matched=which, tree_probe=probe,
         sessions_matching_cfg_today=n_today, sessions_matching_conforming=n_conf, sessions_matching_neither=n_neither,
         oversize_first_reply_crashes=crashed, sessions_rerun_for_confirmation=reruns,
         observation_set_protocol_version_payloads=spv_payloads)
